@@ -122,6 +122,17 @@ def one_job(kind, pid, name, path, copy, args, results):
                 note = 'seeded change'
             tests_ok, tests_tail = (None, 'skipped') if args.no_tests else run_tests(copy)
             rc, sigs, wall, out = run_check(copy, pid, args.tier)
+            used = pid
+            if kind == 'seeded' and rc != 1:
+                # a change written against one property may be decided by the check of another one (meta.json: also_try)
+                with open(os.path.join(VERIF, 'seeded', name, 'meta.json')) as f:
+                    also = json.load(f).get('also_try') or []
+                for other in also:
+                    rc2, sigs2, wall2, out2 = run_check(copy, other, args.tier)
+                    wall += wall2
+                    if rc2 == 1:
+                        rc, sigs, out, used = rc2, sigs2, out2, other
+                        break
             res = {'kind': kind, 'property': pid, 'name': name, 'note': note, 'tests_pass': tests_ok,
                    'tests': tests_tail, 'check_rc': rc, 'detected': rc == 1, 'signatures': sigs[:6],
                    'wall_s': round(wall, 1)}
@@ -132,7 +143,7 @@ def one_job(kind, pid, name, path, copy, args, results):
                 mp = os.path.join(VERIF, 'seeded', name, 'meta.json')
                 with open(mp) as f:
                     meta = json.load(f)
-                meta['detected_by'] = ('./check %s --tier %s' % (pid, args.tier)) if rc == 1 else None
+                meta['detected_by'] = ('./check %s --tier %s' % (used, args.tier)) if rc == 1 else None
                 meta['detection'] = {'check_exit': rc, 'signatures': sigs[:6], 'wall_s': round(wall, 1)}
                 with open(mp, 'w') as f:
                     json.dump(meta, f, indent=1)
